@@ -99,8 +99,8 @@ def shrink_case(ck, case, gvh, oracle, g0, o0, budget=120):
     return gen_lua.shrink(b, fails, budget=budget)
 
 
-def report(ck, case, g, o, gvh, oracle, what="generated program"):
-    small = shrink_case(ck, case, gvh, oracle, g, o)
+def report(ck, case, g, o, gvh, oracle, what="generated program", budget=120):
+    small = shrink_case(ck, case, gvh, oracle, g, o, budget=budget)
     rep = {"kind": "Go!=S", "engine": "luacore", "what": what, "args": case.get("args"), "go": g, "luacore": o,
            "src": case.get("_src"), "sx": case.get("_sx"), "contradicts": "translation validation against LuaCore (manual semantics)"}
     if small is not None:
@@ -134,6 +134,7 @@ def run(tier, seed):
     if oracle is None:
         ck.violation("oracle (extracted LuaCore) does not build", {"kind": "build"}, no_input=True)
         return ck.finish("n/a", TRUSTED, [])
+    ck.log("obligations, harness and oracle ready")
 
     # ---------------- corpus (stored source + S-expression)
     corpus = load_corpus(PID)
@@ -165,7 +166,7 @@ def run(tier, seed):
             ck.notes.append("known finding %s: the witness no longer fails (repaired?)" % fid)
 
     # ---------------- generated programs
-    nprog = 1100 if tier == "quick" else 20000
+    nprog = int(vlib.os.environ.get("VERIF_NPROG", 0)) or (900 if tier == "quick" else 20000)
     rounds = 1 if tier == "quick" else 3
     total = {"same": 0, "diff": 0, "known": 0, "discarded": 0}
     feats_all, kinds_all = {}, {}
@@ -182,7 +183,10 @@ def run(tier, seed):
             ost = o.split(" ")[0]
             gst = g.split(" ")[0]
             ck.count("status:" + gst)
-            if ost.startswith(("unsupported", "fuel", "HANG")) and not gst.startswith(("gopanic", "CRASH")):
+            if gst == "SKIPPED":
+                ck.count("skipped-after-many-hangs")
+                continue
+            if ost.startswith(("unsupported", "fuel", "HANG")) and not gst.startswith(("gopanic", "CRASH", "HANG")):
                 total["discarded"] += 1
                 ck.count("discarded:" + ost)
                 continue
@@ -202,7 +206,7 @@ def run(tier, seed):
             reported.add(m)
             nviol += 1
             if nviol <= 3:
-                report(ck, c, g, o, gvh, oracle)
+                report(ck, c, g, o, gvh, oracle, budget=(120 if nviol == 1 else 25))
             elif nviol == 4:
                 ck.log("further disagreements not shrunk")
         if rd == 0:
